@@ -1,5 +1,6 @@
 """Shared driver for the Auth.tla families (C07, C08, C09)."""
 import os
+from vlib.core import MachineryError
 
 FAMILIES_ALL = ["member_self", "member_restricted", "member_other", "member_tpi", "structure",
                 "generic", "create", "pl0", "pl1", "pl2"]
@@ -39,3 +40,30 @@ def run_families(ctx, cmd, families):
     for fam in families:
         r = gen_family(ctx, fam)
         ctx.replay_and_compare(cmd, r.records)
+
+
+def record_and_validate(ctx, n):
+    """code -> spec: random full-vocabulary scenarios through the real Allowed(), validated by Auth_trace.tla."""
+    trace = os.path.join(ctx.scratch, "auth_trace.ndjson")
+    res = ctx.harness("c07rec", args=["-out", trace, "-n", n])
+    for r in res:  # panics while recording
+        if not r.get("ok"):
+            ctx.disagree("panic/Allowed", r.get("what", "panic")[:2000], {"scenario": r.get("extra"), "count": 1})
+
+    mode = "noesc" if ctx.pid == "C08" else "verdict"
+
+    def on_reject(rec, lineno):
+        if mode == "noesc":
+            probe = {"ver": rec["ver"], "st": rec["st"], "ev": rec["ev"], "want": rec["got"], "noesc": False, "fam": "trace", "variant": rec["variant"]}
+            cmd = "c08"
+        else:
+            # the spec derives the opposite verdict
+            probe = {"ver": rec["ver"], "st": rec["st"], "ev": rec["ev"], "want": (not rec["got"]), "noesc": True, "fam": "trace", "variant": rec["variant"]}
+            cmd = "c07"
+        out = [r for r in ctx.harness(cmd, [probe]) if "i" in r]   # fresh process
+        if not out or out[0].get("ok"):
+            raise MachineryError("recorded verdict of trace line %d did not reproduce in a fresh process" % lineno)
+        r0 = out[0]
+        ctx.disagree(r0.get("key", "trace"), r0.get("what", ""), {"harness": cmd, "record": probe, "result": r0, "count": 1})
+
+    ctx.validate_trace("Auth_trace", "Auth_trace.cfg", trace, on_reject, env={"TRACE_MODE": mode})
